@@ -22,18 +22,22 @@
  * Script discipline.  Every term is computed ONCE into a script variable.  CUT(cond) = assert cond, then assume it
  * (assert-then-assume): a cut is proved under the cuts that precede it in program order and may be used by
  * those that follow.  All cuts in one SAT query do not finish (the disjunction of all goals defeats the solvers),
- * single cuts take 1..40 s, therefore the script is checked by FOUR units per variant; unit g (-DVERIF_CUT_GROUP=g)
+ * single cuts take 1..40 s, therefore the script is checked by FIVE units per variant; unit g (-DVERIF_CUT_GROUP=g)
  * asserts the cuts of group g and only assumes the others:
- *      group 1: MERGE_j, SUM_j (j = 0..3), STEP_j (j = 0..3), SUM_j (j = 4..7)
- *      group 2: STEP_4, STEP_5        group 3: STEP_6, STEP_7
- *      group 4: TAB7..TAB0, and the composition into the postcondition
- * (the postcondition itself is asserted by contract enforcement in all four).
+ *      group 1: MERGE_j, SUM_j, STEP_j (j = 0..3)                                                 [kissat]
+ *      group 2: SUM_j, STEP_j (j = 4, 5)        group 3: SUM_j, STEP_j (j = 6, 7)                  [kissat]
+ *      group 4: TAB7..TAB0 (real generated tables, 8 input bits each) and COMPOSE                  [kissat]
+ *      group 5: no cut; enforces the CONTRACT of crc32{c,be}_lemma_e (specs/crc_lemmas.h), whose body is the
+ *               script: the postcondition evaluates CRC_SLICE8 and crc32{c,be}_bytes8 afresh from the arguments,
+ *               so the step from COMPOSE to it is "equal arguments give equal table look-ups / equal byte steps"
+ *               (a congruence argument: 4 s on cvc5 or z3, no SAT back end finishes it)            [cvc5]
+ * Units 1-4 run the script as a plain ghost function (harness h_lemma_e_script), unit 5 under contract enforcement.
  *
  * WHAT IS TRUSTED (the chaining), exactly:
  *  (a) sequencing of cuts: cut n is assumed in unit g' != group(n) only at the program point where unit group(n)
- *      asserts it, i.e. after the same preceding cuts.  By induction on program order every cut holds on every
- *      execution, so assuming it is conservative.  The file is the same in all four units, only the macro
- *      VERIF_CUT_GROUP differs; VERIF_CUT_GROUP=0 (default, not registered as a unit) asserts everything at once;
+ *      asserts it, i.e. after the same preceding cuts and lemma instances.  By induction on program order every cut
+ *      holds on every execution, so assuming it is conservative.  The file is the same in all five units, only the
+ *      macro VERIF_CUT_GROUP differs; VERIF_CUT_GROUP=0 (default, not registered as a unit) asserts everything;
  *  (b) LEMMA LIN2 is used through --replace-call-with-contract at 34 call instances; it is enforced for all
  *      arguments by crc/crc32c_lemma_lin2 resp. crc/crc32be_lemma_lin2 (ordinary callee-contract reasoning);
  *  (c) nothing else: the table facts TAB* are cuts proved here on the real generated tables; no fact about the
@@ -41,100 +45,351 @@
  */
 /* VERIF-UNIT
 {
- "name": "crc32c_lemma_e_1", "props": ["C14"], "level": "U", "tier": "quick", "harness": "h_lemma_e",
- "enforce": ["crc32c_lemma_e"], "replace": ["crc32c_lemma_lin2"], "defines": ["VERIF_CUT_GROUP=1"],
- "backend": "kissat", "unwind": 10, "cbmc_flags": ["--object-bits", "12"],
+ "name": "crc32c_lemma_e_1",
+ "props": [
+  "C14"
+ ],
+ "level": "U",
+ "tier": "quick",
+ "harness": "h_lemma_e_script",
+ "replace": [
+  "crc32c_lemma_lin2"
+ ],
+ "defines": [
+  "VERIF_CUT_GROUP=1"
+ ],
+ "backend": "kissat",
+ "unwind": 10,
  "unwind_reason": "ghost proof script only: loops over the 4 lanes, the 8 byte steps and at most 8 xor terms, all constant bounds <= 9; unwinding assertions on",
- "functions": ["specs/crc_lemmas.h:crc32c_lemma_e"],
- "assumes": ["cuts of groups 2, 3, 4 are assumed at their program points; each is asserted by crc/crc32c_lemma_e_2, _3, _4 under the same preceding cuts (assert-then-assume sequencing, see the comment at the top of lemma_e.c)",
-             "LEMMA LIN2 instances by contract replacement; enforced by crc/crc32c_lemma_lin2"],
- "timeout": 400, "native": false
+ "cbmc_flags": [
+  "--object-bits",
+  "12"
+ ],
+ "functions": [
+  "specs/crc_lemmas.h:crc32c_lemma_e"
+ ],
+ "assumes": [
+  "cuts of groups 2, 3, 4 are assumed at their program points; each is asserted by crc/crc32c_lemma_e_2, _3, _4 under the same preceding cuts (assert-then-assume sequencing, see the comment at the top of lemma_e.c)",
+  "LEMMA LIN2 instances by contract replacement; enforced by crc/crc32c_lemma_lin2"
+ ],
+ "timeout": 400,
+ "native": false
 }
 */
 /* VERIF-UNIT
 {
- "name": "crc32c_lemma_e_2", "props": ["C14"], "level": "U", "tier": "quick", "harness": "h_lemma_e",
- "enforce": ["crc32c_lemma_e"], "replace": ["crc32c_lemma_lin2"], "defines": ["VERIF_CUT_GROUP=2"],
- "backend": "kissat", "unwind": 10, "cbmc_flags": ["--object-bits", "12"],
+ "name": "crc32c_lemma_e_2",
+ "props": [
+  "C14"
+ ],
+ "level": "U",
+ "tier": "quick",
+ "harness": "h_lemma_e_script",
+ "replace": [
+  "crc32c_lemma_lin2"
+ ],
+ "defines": [
+  "VERIF_CUT_GROUP=2"
+ ],
+ "backend": "kissat",
+ "unwind": 10,
  "unwind_reason": "ghost proof script only: loops over the 4 lanes, the 8 byte steps and at most 8 xor terms, all constant bounds <= 9; unwinding assertions on",
- "functions": ["specs/crc_lemmas.h:crc32c_lemma_e"],
- "assumes": ["cuts of groups 1, 3, 4 are assumed at their program points; each is asserted by crc/crc32c_lemma_e_1, _3, _4 under the same preceding cuts (assert-then-assume sequencing, see the comment at the top of lemma_e.c)",
-             "LEMMA LIN2 instances by contract replacement; enforced by crc/crc32c_lemma_lin2"],
- "timeout": 400, "native": false
+ "cbmc_flags": [
+  "--object-bits",
+  "12"
+ ],
+ "functions": [
+  "specs/crc_lemmas.h:crc32c_lemma_e"
+ ],
+ "assumes": [
+  "cuts of groups 1, 3, 4 are assumed at their program points; each is asserted by crc/crc32c_lemma_e_1, _3, _4 under the same preceding cuts (assert-then-assume sequencing, see the comment at the top of lemma_e.c)",
+  "LEMMA LIN2 instances by contract replacement; enforced by crc/crc32c_lemma_lin2"
+ ],
+ "timeout": 400,
+ "native": false
 }
 */
 /* VERIF-UNIT
 {
- "name": "crc32c_lemma_e_3", "props": ["C14"], "level": "U", "tier": "quick", "harness": "h_lemma_e",
- "enforce": ["crc32c_lemma_e"], "replace": ["crc32c_lemma_lin2"], "defines": ["VERIF_CUT_GROUP=3"],
- "backend": "kissat", "unwind": 10, "cbmc_flags": ["--object-bits", "12"],
+ "name": "crc32c_lemma_e_3",
+ "props": [
+  "C14"
+ ],
+ "level": "U",
+ "tier": "quick",
+ "harness": "h_lemma_e_script",
+ "replace": [
+  "crc32c_lemma_lin2"
+ ],
+ "defines": [
+  "VERIF_CUT_GROUP=3"
+ ],
+ "backend": "kissat",
+ "unwind": 10,
  "unwind_reason": "ghost proof script only: loops over the 4 lanes, the 8 byte steps and at most 8 xor terms, all constant bounds <= 9; unwinding assertions on",
- "functions": ["specs/crc_lemmas.h:crc32c_lemma_e"],
- "assumes": ["cuts of groups 1, 2, 4 are assumed at their program points; each is asserted by crc/crc32c_lemma_e_1, _2, _4 under the same preceding cuts (assert-then-assume sequencing, see the comment at the top of lemma_e.c)",
-             "LEMMA LIN2 instances by contract replacement; enforced by crc/crc32c_lemma_lin2"],
- "timeout": 400, "native": false
+ "cbmc_flags": [
+  "--object-bits",
+  "12"
+ ],
+ "functions": [
+  "specs/crc_lemmas.h:crc32c_lemma_e"
+ ],
+ "assumes": [
+  "cuts of groups 1, 2, 4 are assumed at their program points; each is asserted by crc/crc32c_lemma_e_1, _2, _4 under the same preceding cuts (assert-then-assume sequencing, see the comment at the top of lemma_e.c)",
+  "LEMMA LIN2 instances by contract replacement; enforced by crc/crc32c_lemma_lin2"
+ ],
+ "timeout": 400,
+ "native": false
 }
 */
 /* VERIF-UNIT
 {
- "name": "crc32c_lemma_e_4", "props": ["C14"], "level": "U", "tier": "quick", "harness": "h_lemma_e",
- "enforce": ["crc32c_lemma_e"], "replace": ["crc32c_lemma_lin2"], "defines": ["VERIF_CUT_GROUP=4"],
- "backend": "kissat", "unwind": 10, "cbmc_flags": ["--object-bits", "12"],
+ "name": "crc32c_lemma_e_4",
+ "props": [
+  "C14"
+ ],
+ "level": "U",
+ "tier": "quick",
+ "harness": "h_lemma_e_script",
+ "replace": [
+  "crc32c_lemma_lin2"
+ ],
+ "defines": [
+  "VERIF_CUT_GROUP=4"
+ ],
+ "backend": "kissat",
+ "unwind": 10,
  "unwind_reason": "ghost proof script only: loops over the 4 lanes, the 8 byte steps and at most 8 xor terms, all constant bounds <= 9; unwinding assertions on",
- "functions": ["specs/crc_lemmas.h:crc32c_lemma_e", "lib/ext2fs/crc32c.c:crc32ctable_le"],
- "assumes": ["cuts of groups 1, 2, 3 are assumed at their program points; each is asserted by crc/crc32c_lemma_e_1, _2, _3 under the same preceding cuts (assert-then-assume sequencing, see the comment at the top of lemma_e.c)",
-             "LEMMA LIN2 instances by contract replacement; enforced by crc/crc32c_lemma_lin2",
-             "little-endian host configuration (tole(x) = x), CRC_LE_BITS = 64 as built"],
- "timeout": 400, "native": false
+ "cbmc_flags": [
+  "--object-bits",
+  "12"
+ ],
+ "functions": [
+  "specs/crc_lemmas.h:crc32c_lemma_e",
+  "lib/ext2fs/crc32c.c:crc32ctable_le"
+ ],
+ "assumes": [
+  "cuts of groups 1, 2, 3 are assumed at their program points; each is asserted by crc/crc32c_lemma_e_1, _2, _3 under the same preceding cuts (assert-then-assume sequencing, see the comment at the top of lemma_e.c)",
+  "LEMMA LIN2 instances by contract replacement; enforced by crc/crc32c_lemma_lin2",
+  "little-endian host configuration (tole(x) = x), CRC_LE_BITS = 64 as built"
+ ],
+ "timeout": 400,
+ "native": false
 }
 */
 /* VERIF-UNIT
 {
- "name": "crc32be_lemma_e_1", "props": ["C14"], "level": "U", "tier": "quick", "harness": "h_lemma_e",
- "enforce": ["crc32be_lemma_e"], "replace": ["crc32be_lemma_lin2"], "defines": ["CRC_VARIANT_BE", "VERIF_CUT_GROUP=1"],
- "backend": "kissat", "unwind": 10, "cbmc_flags": ["--object-bits", "12"],
+ "name": "crc32c_lemma_e_5",
+ "props": [
+  "C14"
+ ],
+ "level": "U",
+ "tier": "quick",
+ "harness": "h_lemma_e",
+ "enforce": [
+  "crc32c_lemma_e"
+ ],
+ "replace": [
+  "crc32c_lemma_lin2"
+ ],
+ "defines": [
+  "VERIF_CUT_GROUP=5"
+ ],
+ "backend": "cvc5",
+ "unwind": 10,
  "unwind_reason": "ghost proof script only: loops over the 4 lanes, the 8 byte steps and at most 8 xor terms, all constant bounds <= 9; unwinding assertions on",
- "functions": ["specs/crc_lemmas.h:crc32be_lemma_e"],
- "assumes": ["cuts of groups 2, 3, 4 are assumed at their program points; each is asserted by crc/crc32be_lemma_e_2, _3, _4 under the same preceding cuts (assert-then-assume sequencing, see the comment at the top of lemma_e.c)",
-             "LEMMA LIN2 instances by contract replacement; enforced by crc/crc32be_lemma_lin2"],
- "timeout": 400, "native": false
+ "cbmc_flags": [
+  "--object-bits",
+  "12"
+ ],
+ "functions": [
+  "specs/crc_lemmas.h:crc32c_lemma_e",
+  "lib/ext2fs/crc32c.c:crc32ctable_le"
+ ],
+ "assumes": [
+  "every cut of the script (groups 1-4) is assumed at its program point; each is asserted by crc/crc32c_lemma_e_1 .. _4 under the same preceding cuts (assert-then-assume sequencing, see the comment at the top of lemma_e.c); this unit proves the step from the last cut COMPOSE to the contract of crc32c_lemma_e, whose postcondition re-evaluates the formula and the eight byte steps from the arguments (a congruence argument: SMT back end)",
+  "LEMMA LIN2 instances by contract replacement; enforced by crc/crc32c_lemma_lin2",
+  "little-endian host configuration (tole(x) = x), CRC_LE_BITS = 64 as built"
+ ],
+ "timeout": 400,
+ "native": false
 }
 */
 /* VERIF-UNIT
 {
- "name": "crc32be_lemma_e_2", "props": ["C14"], "level": "U", "tier": "quick", "harness": "h_lemma_e",
- "enforce": ["crc32be_lemma_e"], "replace": ["crc32be_lemma_lin2"], "defines": ["CRC_VARIANT_BE", "VERIF_CUT_GROUP=2"],
- "backend": "kissat", "unwind": 10, "cbmc_flags": ["--object-bits", "12"],
+ "name": "crc32be_lemma_e_1",
+ "props": [
+  "C14"
+ ],
+ "level": "U",
+ "tier": "quick",
+ "harness": "h_lemma_e_script",
+ "replace": [
+  "crc32be_lemma_lin2"
+ ],
+ "defines": [
+  "CRC_VARIANT_BE",
+  "VERIF_CUT_GROUP=1"
+ ],
+ "backend": "kissat",
+ "unwind": 10,
  "unwind_reason": "ghost proof script only: loops over the 4 lanes, the 8 byte steps and at most 8 xor terms, all constant bounds <= 9; unwinding assertions on",
- "functions": ["specs/crc_lemmas.h:crc32be_lemma_e"],
- "assumes": ["cuts of groups 1, 3, 4 are assumed at their program points; each is asserted by crc/crc32be_lemma_e_1, _3, _4 under the same preceding cuts (assert-then-assume sequencing, see the comment at the top of lemma_e.c)",
-             "LEMMA LIN2 instances by contract replacement; enforced by crc/crc32be_lemma_lin2"],
- "timeout": 400, "native": false
+ "cbmc_flags": [
+  "--object-bits",
+  "12"
+ ],
+ "functions": [
+  "specs/crc_lemmas.h:crc32be_lemma_e"
+ ],
+ "assumes": [
+  "cuts of groups 2, 3, 4 are assumed at their program points; each is asserted by crc/crc32be_lemma_e_2, _3, _4 under the same preceding cuts (assert-then-assume sequencing, see the comment at the top of lemma_e.c)",
+  "LEMMA LIN2 instances by contract replacement; enforced by crc/crc32be_lemma_lin2"
+ ],
+ "timeout": 400,
+ "native": false
 }
 */
 /* VERIF-UNIT
 {
- "name": "crc32be_lemma_e_3", "props": ["C14"], "level": "U", "tier": "quick", "harness": "h_lemma_e",
- "enforce": ["crc32be_lemma_e"], "replace": ["crc32be_lemma_lin2"], "defines": ["CRC_VARIANT_BE", "VERIF_CUT_GROUP=3"],
- "backend": "kissat", "unwind": 10, "cbmc_flags": ["--object-bits", "12"],
+ "name": "crc32be_lemma_e_2",
+ "props": [
+  "C14"
+ ],
+ "level": "U",
+ "tier": "quick",
+ "harness": "h_lemma_e_script",
+ "replace": [
+  "crc32be_lemma_lin2"
+ ],
+ "defines": [
+  "CRC_VARIANT_BE",
+  "VERIF_CUT_GROUP=2"
+ ],
+ "backend": "kissat",
+ "unwind": 10,
  "unwind_reason": "ghost proof script only: loops over the 4 lanes, the 8 byte steps and at most 8 xor terms, all constant bounds <= 9; unwinding assertions on",
- "functions": ["specs/crc_lemmas.h:crc32be_lemma_e"],
- "assumes": ["cuts of groups 1, 2, 4 are assumed at their program points; each is asserted by crc/crc32be_lemma_e_1, _2, _4 under the same preceding cuts (assert-then-assume sequencing, see the comment at the top of lemma_e.c)",
-             "LEMMA LIN2 instances by contract replacement; enforced by crc/crc32be_lemma_lin2"],
- "timeout": 400, "native": false
+ "cbmc_flags": [
+  "--object-bits",
+  "12"
+ ],
+ "functions": [
+  "specs/crc_lemmas.h:crc32be_lemma_e"
+ ],
+ "assumes": [
+  "cuts of groups 1, 3, 4 are assumed at their program points; each is asserted by crc/crc32be_lemma_e_1, _3, _4 under the same preceding cuts (assert-then-assume sequencing, see the comment at the top of lemma_e.c)",
+  "LEMMA LIN2 instances by contract replacement; enforced by crc/crc32be_lemma_lin2"
+ ],
+ "timeout": 400,
+ "native": false
 }
 */
 /* VERIF-UNIT
 {
- "name": "crc32be_lemma_e_4", "props": ["C14"], "level": "U", "tier": "quick", "harness": "h_lemma_e",
- "enforce": ["crc32be_lemma_e"], "replace": ["crc32be_lemma_lin2"], "defines": ["CRC_VARIANT_BE", "VERIF_CUT_GROUP=4"],
- "backend": "kissat", "unwind": 10, "cbmc_flags": ["--object-bits", "12"],
+ "name": "crc32be_lemma_e_3",
+ "props": [
+  "C14"
+ ],
+ "level": "U",
+ "tier": "quick",
+ "harness": "h_lemma_e_script",
+ "replace": [
+  "crc32be_lemma_lin2"
+ ],
+ "defines": [
+  "CRC_VARIANT_BE",
+  "VERIF_CUT_GROUP=3"
+ ],
+ "backend": "kissat",
+ "unwind": 10,
  "unwind_reason": "ghost proof script only: loops over the 4 lanes, the 8 byte steps and at most 8 xor terms, all constant bounds <= 9; unwinding assertions on",
- "functions": ["specs/crc_lemmas.h:crc32be_lemma_e", "lib/ext2fs/crc32c.c:crc32table_be"],
- "assumes": ["cuts of groups 1, 2, 3 are assumed at their program points; each is asserted by crc/crc32be_lemma_e_1, _2, _3 under the same preceding cuts (assert-then-assume sequencing, see the comment at the top of lemma_e.c)",
-             "LEMMA LIN2 instances by contract replacement; enforced by crc/crc32be_lemma_lin2",
-             "little-endian host configuration (tobe(x) = swab32(x)), CRC_BE_BITS = 64 as built"],
- "timeout": 400, "native": false
+ "cbmc_flags": [
+  "--object-bits",
+  "12"
+ ],
+ "functions": [
+  "specs/crc_lemmas.h:crc32be_lemma_e"
+ ],
+ "assumes": [
+  "cuts of groups 1, 2, 4 are assumed at their program points; each is asserted by crc/crc32be_lemma_e_1, _2, _4 under the same preceding cuts (assert-then-assume sequencing, see the comment at the top of lemma_e.c)",
+  "LEMMA LIN2 instances by contract replacement; enforced by crc/crc32be_lemma_lin2"
+ ],
+ "timeout": 400,
+ "native": false
+}
+*/
+/* VERIF-UNIT
+{
+ "name": "crc32be_lemma_e_4",
+ "props": [
+  "C14"
+ ],
+ "level": "U",
+ "tier": "quick",
+ "harness": "h_lemma_e_script",
+ "replace": [
+  "crc32be_lemma_lin2"
+ ],
+ "defines": [
+  "CRC_VARIANT_BE",
+  "VERIF_CUT_GROUP=4"
+ ],
+ "backend": "kissat",
+ "unwind": 10,
+ "unwind_reason": "ghost proof script only: loops over the 4 lanes, the 8 byte steps and at most 8 xor terms, all constant bounds <= 9; unwinding assertions on",
+ "cbmc_flags": [
+  "--object-bits",
+  "12"
+ ],
+ "functions": [
+  "specs/crc_lemmas.h:crc32be_lemma_e",
+  "lib/ext2fs/crc32c.c:crc32table_be"
+ ],
+ "assumes": [
+  "cuts of groups 1, 2, 3 are assumed at their program points; each is asserted by crc/crc32be_lemma_e_1, _2, _3 under the same preceding cuts (assert-then-assume sequencing, see the comment at the top of lemma_e.c)",
+  "LEMMA LIN2 instances by contract replacement; enforced by crc/crc32be_lemma_lin2",
+  "little-endian host configuration (tobe(x) = swab32(x)), CRC_BE_BITS = 64 as built"
+ ],
+ "timeout": 400,
+ "native": false
+}
+*/
+/* VERIF-UNIT
+{
+ "name": "crc32be_lemma_e_5",
+ "props": [
+  "C14"
+ ],
+ "level": "U",
+ "tier": "quick",
+ "harness": "h_lemma_e",
+ "enforce": [
+  "crc32be_lemma_e"
+ ],
+ "replace": [
+  "crc32be_lemma_lin2"
+ ],
+ "defines": [
+  "CRC_VARIANT_BE",
+  "VERIF_CUT_GROUP=5"
+ ],
+ "backend": "cvc5",
+ "unwind": 10,
+ "unwind_reason": "ghost proof script only: loops over the 4 lanes, the 8 byte steps and at most 8 xor terms, all constant bounds <= 9; unwinding assertions on",
+ "cbmc_flags": [
+  "--object-bits",
+  "12"
+ ],
+ "functions": [
+  "specs/crc_lemmas.h:crc32be_lemma_e",
+  "lib/ext2fs/crc32c.c:crc32table_be"
+ ],
+ "assumes": [
+  "every cut of the script (groups 1-4) is assumed at its program point; each is asserted by crc/crc32be_lemma_e_1 .. _4 under the same preceding cuts (assert-then-assume sequencing, see the comment at the top of lemma_e.c); this unit proves the step from the last cut COMPOSE to the contract of crc32be_lemma_e, whose postcondition re-evaluates the formula and the eight byte steps from the arguments (a congruence argument: SMT back end)",
+  "LEMMA LIN2 instances by contract replacement; enforced by crc/crc32be_lemma_lin2",
+  "little-endian host configuration (tobe(x) = swab32(x)), CRC_BE_BITS = 64 as built"
+ ],
+ "timeout": 400,
+ "native": false
 }
 */
 #include "verif.h"
@@ -184,7 +439,7 @@ struct in_s IN;
 #define Z(x) CRC_Z(x)
 #define LIN2(u, v) CRC_FN(lemma_lin2)(u, v)	/* replaced by its contract: assumes Z(u ^ v) == Z(u) ^ Z(v) */
 
-void CRC_FN(lemma_e)(uint32_t m, uint32_t w0, uint32_t w1)
+static void CRC_FN(lemma_e_script)(uint32_t m, uint32_t w0, uint32_t w1)
 {
 	uint32_t b[8], s[9];
 	uint32_t ZL[4][9];	/* ZL[k][j] = Z^j(lane k of q), q = m ^ w0 */
@@ -247,7 +502,10 @@ void CRC_FN(lemma_e)(uint32_t m, uint32_t w0, uint32_t w1)
 		}
 		for (i = 0; i < n; i++)
 			acc ^= t[i];
-		CUT1((s[j] ^ b[j]) == acc, "SUM_j (j >= 4): state ^ byte = xor of the j + 1 one-byte terms");
+		if (j < 6)
+			CUT2((s[j] ^ b[j]) == acc, "SUM_4, SUM_5: state ^ byte = xor of the j + 1 one-byte terms");
+		else
+			CUT3((s[j] ^ b[j]) == acc, "SUM_6, SUM_7: state ^ byte = xor of the j + 1 one-byte terms");
 		P[n - 1] = t[n - 1]; ZP[n - 1] = zt[n - 1];
 		for (i = n - 2; i >= 0; i--) {
 			P[i] = t[i] ^ P[i + 1];
@@ -269,15 +527,25 @@ void CRC_FN(lemma_e)(uint32_t m, uint32_t w0, uint32_t w1)
 	CUT4(ZX[6][2] == CRC_SL1(w1), "TAB1: Z^2(byte 6) = T[1][byte 6]");
 	CUT4(ZX[7][1] == CRC_SL0(w1), "TAB0: Z(byte 7) = T[0][byte 7]");
 	CUT4(s[8] == CRC_SLICE8(m, w0, w1), "COMPOSE: eight byte steps = the slice-by-8 formula");
-	/* the postcondition restates this with crc32{c,be}_bytes8(m, w0, w1) for s[8] */
+}
+
+/* LEMMA E as a lemma function: the script is its proof (unit group 5 enforces the contract of crc_lemmas.h) */
+void CRC_FN(lemma_e)(uint32_t m, uint32_t w0, uint32_t w1)
+{
+	CRC_FN(lemma_e_script)(m, w0, w1);
+}
+
+void h_lemma_e_script(void)
+{
+	LOAD_IN();
+	CRC_FN(lemma_e_script)(IN.m, IN.w0, IN.w1);
+	REACH("end");
 }
 
 void h_lemma_e(void)
 {
 	LOAD_IN();
 	CRC_FN(lemma_e)(IN.m, IN.w0, IN.w1);
-#if VERIF_CUT_GROUP == 0 || VERIF_CUT_GROUP == 4
 	CHECK(CRC_SLICE8(IN.m, IN.w0, IN.w1) == CRC_FN(bytes8)(IN.m, IN.w0, IN.w1), "LEMMA E: one slice-by-8 table step = eight bitwise byte steps");
-#endif
 	REACH("end");
 }
